@@ -4,6 +4,7 @@ CONSTANTS ChildCodes = {0, 77}
   MCExits = {0, 1, 2, 99, 127, 128, 255}
   DeliverTrap = TRUE
   LowByteSignal = FALSE
+  RelabelOnCancel = FALSE
   WaitGroup = TRUE
 SPECIFICATION Spec
 INVARIANTS VerdictOK ErrorOK RunnerErrorOnlyForRunner BadExecIsRunnerError ChildLimitImpl FateOK ImplExitOK
